@@ -21,7 +21,9 @@ CHECKS = [
         "Trusted: givc, ElementTree, _parse_type and _parse_generic_attribs by assumed contract, XML layer (C20). Only parameter "
         "elements have both directions under contract; for <array>/<type> the writer side is under contract (_write_type, with the "
         "reader's zero-terminated default rule as specification) and the reader of the generic attributes and documentation children "
-        "(_parse_generic_attribs: every <doc*> child is read whenever present); return values, records, classes, documents as a "
+        "(_parse_generic_attribs: every <doc*> child is read whenever present), of <array> / <type> / <varargs> elements "
+        "(_parse_type_simple: kind, C type, fixed size, zero-termination with the reader's default) and of the array length index "
+        "(_parse_type_array_length); return values, records, classes, documents as a "
         "whole and the shipped GIR files are not yet covered.", "DESIGN.md section 4 C07"),
     chk("C09", "The section-offset arithmetic of the real GIObjectInfo accessors (get_property/method/vfunc/constant, signal offset, "
         "field offset walk over embedded callbacks) is proved equal to the ObjectBlob layout of gitypelib-internal.h written as a "
